@@ -196,6 +196,32 @@ def _software_inits(with_guarded: bool = False):
     return sorted(applied + guarded), sorted(other)
 
 
+def _outer_sources() -> List[Tuple[str, str, str]]:
+    """Options of a software entry that also have a source outside the entry: every `install()` hook of a software class of the
+    shape `if self.parent and not self.<opt>: self.config.<opt> = <outer>` -> (software name, option, outer expression). Any
+    other statement of an `install()` hook that writes `self.config` raises (the precedence would not be inner-first)."""
+    from harness.lib.core import SRC
+    out = []
+    files = []
+    for d in SOFTWARE_DIRS:
+        files += sorted((SRC / d).rglob("*.py"))
+    for f in files:
+        for c in [n for n in ast.walk(ast.parse(f.read_text())) if isinstance(n, ast.ClassDef)]:
+            disc = next((k.value.value for k in c.keywords if k.arg == "discriminator" and isinstance(k.value, ast.Constant)), None)
+            for m in c.body:
+                if not (isinstance(m, ast.FunctionDef) and m.name == "install"):
+                    continue
+                for st in ast.walk(m):
+                    if isinstance(st, ast.Assign) and ast.unparse(st.targets[0]).startswith("self.config."):
+                        opt = ast.unparse(st.targets[0])[len("self.config."):]
+                        guard = next((g for g in ast.walk(m) if isinstance(g, ast.If) and st in g.body), None)
+                        if guard is None or ast.unparse(guard.test) != f"self.parent and (not self.{opt})":
+                            raise ValueError(f"{c.name}.install writes config.{opt} outside the inner-first guard: "
+                                             f"{ast.unparse(guard.test) if guard else 'unguarded'}")
+                        out.append((disc or c.name, opt, ast.unparse(st.value)))
+    return sorted(out)
+
+
 def _software_chains() -> List[Tuple[str, List[str]]]:
     """software name (the class's `discriminator=`) -> the classes whose constructors run when it is built, base class first:
     the chain of first bases that are themselves classes of the software packages, up to `Software`."""
@@ -474,6 +500,9 @@ def emit() -> str:
               f"def constantSchedulerCopies : Bool := {'true' if const_copies else 'false'}",
               "/-- statements of loader functions that change the mapping they were given -/",
               "def loaderConsumesArgument : List (String × String) := [" + ", ".join(f"({_lean_str(a)}, {_lean_str(b)})" for a, b in consumed) + "]",
+              "/-- (software, option, outer source): install hooks that fill an option from outside the entry when the entry gives none -/",
+              "def optionOuterSources : List (String × String × String) := [" + ", ".join(
+                  "(" + ", ".join(_lean_str(x) for x in t) + ")" for t in _outer_sources()) + "]",
               "/-- software name → constructor chain, base class first -/",
               "def softwareChains : List (String × List String) := [" + ", ".join(
                   f"({_lean_str(n)}, [" + ", ".join(_lean_str(c) for c in ch) + "])" for n, ch in sw_chains) + "]",
